@@ -389,7 +389,9 @@ class Run:
             d = self.instances[inst]
             conf = self.resolve_config(inst, op["cfg"])
             how = op.get("how", "dict")
-            if how == "dict":
+            if how == "attr":
+                d.max_concurrency = conf["max_concurrency"]
+            elif how == "dict":
                 d.config_from_dict(conf)
             elif how == "json":
                 p = os.path.join(self.tmp(), f"cfg{c}_{i}.json")
